@@ -578,6 +578,9 @@ func c14ScopeFamily() explore.Family {
 		if want.Panic != nil || want.Err != nil {
 			panic(explore.BaselineFailure{Msg: "harness: reference placement fails: " + want.String()})
 		}
+		if mi == 0 && want.Err == nil && !strings.Contains(want.Out, "<y=main><sub-y=mainT>") {
+			r.Violation("N1:included-file-does-not-see-the-includers-variable", map[string]any{"main": mains[mi], "y.inc": "<y={{ y }}>", "sub/y.inc": "<sub-y={{ y }}{% if y %}T{% else %}F{% endif %}>"}, "...<y=main><sub-y=mainT>", want.String())
+		}
 		if got.String() != want.String() {
 			r.Violation("N3:binding-place-in-included-file-matters", map[string]any{"main": mains[mi], "p.inc": "<" + strings.Replace(places[pi], "X", binders[bi], 1) + ">", "show.inc": "({{ y }})", "outer.inc": "{% include 'p.inc' %}{% include 'show.inc' %}", "cached": cached},
 				want.String()+" (as with the tag at the top level of p.inc)", got.String())
